@@ -315,6 +315,8 @@ class Slip32KeyDeserializer:
 
         # If private key, the first byte shall be zero and shall be removed
         if not is_public:
+            if len(key_bytes) == 0:
+                raise ValueError("Invalid extended private key (no key bytes)")
             if key_bytes[0] != 0:
                 raise ValueError(f"Invalid extended private key (wrong secret: {key_bytes[0]})")
             key_bytes = key_bytes[1:]
